@@ -86,6 +86,7 @@ type Reader struct {
 	Off   int
 	Yield func(site string) // scheduler seam (may be nil)
 
+	dev         *core.Tape
 	sticky      error
 	afterSticky int
 	zeros       int
@@ -96,8 +97,11 @@ type Reader struct {
 	ErrReturned error
 }
 
+// NewReader creates the simulated reader. Its per-call decisions (chunk sizes, zero-length
+// reads) come from a private sub-stream seeded by ONE draw of the run's tape, so that the
+// number of Read calls the library makes cannot shift the caller's operation sequence.
 func NewReader(ctx *core.Ctx, data []byte, p Plan) *Reader {
-	return &Reader{Ctx: ctx, Data: data, P: p}
+	return &Reader{Ctx: ctx, Data: data, P: p, dev: ctx.T.Sub()}
 }
 
 // Visible is the prefix of the data a consumer can ever obtain.
@@ -118,7 +122,7 @@ func (r *Reader) fin(n int, err error) (int, error) {
 	} else if err != nil {
 		e = 2
 	}
-	r.Ctx.L.Ev("read", int64(n), e)
+	r.Ctx.L.EvDev("read", int64(n), e)
 	if err != nil {
 		r.ErrReturned = err
 		r.sticky = err
@@ -172,7 +176,7 @@ func (r *Reader) Read(p []byte) (int, error) {
 		}
 		return r.fin(0, r.endErr())
 	}
-	if r.P.ZeroReads && r.zeros < 3 && r.Ctx.T.Chance(1, 8) {
+	if r.P.ZeroReads && r.zeros < 3 && r.dev.Chance(1, 8) {
 		r.zeros++
 		r.Ctx.Count("fault_zero_read")
 		return r.fin(0, nil)
@@ -183,9 +187,9 @@ func (r *Reader) Read(p []byte) (int, error) {
 	case ChunkFixed:
 		k = r.P.Fixed
 	case ChunkSmall:
-		k = 1 + r.Ctx.T.Draw(4)
+		k = 1 + r.dev.Draw(4)
 	case ChunkAny:
-		k = 1 + r.Ctx.T.Draw(96) // independent of len(p): the consumer's buffer size must not shift the tape
+		k = 1 + r.dev.Draw(96)
 	case ChunkRuneM1:
 		k = runeMinusOne(r.Data[r.Off:lim])
 	}
@@ -256,7 +260,8 @@ type ReadSeeker struct {
 	P        Plan
 	Pos      int64
 	Yield    func(site string)
-	Quiet    bool // scheduled runs: several tasks call in; touch no shared harness state, draw nothing
+	Dev      *core.Tape // private sub-stream for per-call chunk sizes (nil: no per-call draws)
+	Quiet    bool       // scheduled runs: several tasks call in; touch no shared harness state, draw nothing
 	failed   bool
 	Inside   int // number of callers currently between entry and exit of Seek/Read (overlap probe)
 	Overlaps int
@@ -292,7 +297,7 @@ func (s *ReadSeeker) Seek(off int64, whence int) (int64, error) {
 	}
 	s.Pos = abs
 	if !s.Quiet {
-		s.Ctx.L.Ev("seek", abs)
+		s.Ctx.L.EvDev("seek", abs)
 	}
 	if s.Yield != nil {
 		s.Yield("Seek.ret")
@@ -307,11 +312,11 @@ func (s *ReadSeeker) Read(p []byte) (int, error) {
 	if s.Quiet {
 		c = nil
 	}
-	return readAtCommon(c, s.Data, &s.P, &s.failed, p, &s.Pos, false, s.Yield)
+	return readAtCommon(c, s.Dev, s.Data, &s.P, &s.failed, p, &s.Pos, false, s.Yield)
 }
 
 // readAtCommon serves a read at *pos and advances it.
-func readAtCommon(ctx *core.Ctx, data []byte, pl *Plan, failed *bool, p []byte, pos *int64, readerAt bool, yield func(string)) (int, error) {
+func readAtCommon(ctx *core.Ctx, dev *core.Tape, data []byte, pl *Plan, failed *bool, p []byte, pos *int64, readerAt bool, yield func(string)) (int, error) {
 	if len(p) == 0 {
 		evq(ctx, "sread", 0, 0)
 		return 0, nil
@@ -340,16 +345,16 @@ func readAtCommon(ctx *core.Ctx, data []byte, pl *Plan, failed *bool, p []byte, 
 		case ChunkFixed:
 			k = pl.Fixed
 		case ChunkSmall:
-			if ctx != nil {
-				k = 1 + ctx.T.Draw(4)
+			if dev != nil {
+				k = 1 + dev.Draw(4)
 			}
 		case ChunkAny:
-			if ctx != nil {
-				k = 1 + ctx.T.Draw(96)
+			if dev != nil {
+				k = 1 + dev.Draw(96)
 			}
 		case ChunkRuneM1:
-			if ctx != nil {
-				k = 1 + ctx.T.Draw(2)
+			if dev != nil {
+				k = 1 + dev.Draw(2)
 			}
 		}
 	}
@@ -398,7 +403,7 @@ func readAtCommon(ctx *core.Ctx, data []byte, pl *Plan, failed *bool, p []byte, 
 
 func evq(ctx *core.Ctx, kind string, a ...int64) {
 	if ctx != nil {
-		ctx.L.Ev(kind, a...)
+		ctx.L.EvDev(kind, a...)
 	}
 }
 
@@ -417,6 +422,7 @@ type ReaderAt struct {
 	Data   []byte
 	P      Plan
 	Yield  func(site string)
+	Dev    *core.Tape
 	Quiet  bool
 	seqPos int64
 	failed bool
@@ -430,7 +436,7 @@ func (a *ReaderAt) ctx() *core.Ctx {
 }
 
 func (a *ReaderAt) Read(p []byte) (int, error) {
-	return readAtCommon(a.ctx(), a.Data, &a.P, &a.failed, p, &a.seqPos, false, a.Yield)
+	return readAtCommon(a.ctx(), a.Dev, a.Data, &a.P, &a.failed, p, &a.seqPos, false, a.Yield)
 }
 
 func (a *ReaderAt) ReadAt(p []byte, off int64) (int, error) {
@@ -441,7 +447,7 @@ func (a *ReaderAt) ReadAt(p []byte, off int64) (int, error) {
 		return 0, errors.New("simreaderat: negative offset")
 	}
 	pos := off
-	return readAtCommon(a.ctx(), a.Data, &a.P, &a.failed, p, &pos, true, a.Yield)
+	return readAtCommon(a.ctx(), a.Dev, a.Data, &a.P, &a.failed, p, &pos, true, a.Yield)
 }
 
 // ---------------------------------------------------------------- writer
